@@ -291,6 +291,21 @@ def run(ctx):
         j = next((x for x in range(min(len(a), len(b))) if a[x] != b[x]), min(len(a), len(b)))
         ctx.broken.append(('correspondence:array', 'model and Array_ differ in sequence %d at output line %d: model=%r impl=%r' %
                            (i, j, a[j] if j < len(a) else None, b[j] if j < len(b) else None)))
+    # the harness died (uncaught exception / abort) in the middle of the batch: the first sequence without a complete output is the
+    # one it died in; run it alone and, when it dies again, that sequence is a failing input (a valid operation sequence on which
+    # Array_ raises an error or crashes where std::vector performs the operation)
+    if any(b[0] == 'correspondence:harness' for b in ctx.broken) and not fails:
+        for i, sq in enumerate(seqs):
+            out = sc[i] if i < len(sc) else None
+            if out is None or not (out and out[-1].startswith('E')):
+                # (stdout is buffered, so output of a few complete sequences before the fatal one may be missing too: scan forward)
+                for j in range(i, len(seqs)):
+                    rc, o, e = sh([exe], input='\n'.join(seqs[j]) + '\n', timeout=60)
+                    if rc != 0:
+                        msg = ' '.join(e.split())[-300:]
+                        fails.append((j, 'the harness dies on this sequence (rc=%d): %s' % (rc, msg), -1))
+                        break
+                break
     if fails:
         i, what, at = fails[0]
         def still(c):
